@@ -82,7 +82,7 @@ pub struct CfgPolicy {
 pub const EXTRA_WIDTHS: [usize; 7] = [80, 100, 120, 121, 200, 10_000, usize::MAX / 2];
 const SPARSE_WIDTHS: [usize; 10] = [0, 1, 7, 14, 21, 28, 40, 60, 80, 10_000];
 const BLANK_WIDTHS: [usize; 2] = [0, 10_000];
-const EDGE_TAB_WIDTHS: [usize; 3] = [0, 40, 10_000];
+const EDGE_TAB_WIDTHS: [usize; 2] = [0, 10_000];
 
 impl CfgPolicy {
     pub fn standard(cap: usize, tabs_full: &[usize], tabs_sparse: &[usize]) -> CfgPolicy {
